@@ -18,15 +18,17 @@ from .common import det3, dot3, cross3, sym_abs, And, Or, Not, Implies, Iff, arb
 
 LEVEL = 'proof'
 EXPLANATION = ("The Cython sources dvect.pyx / dmag.pyx are stripped of their C annotations mechanically (cy2py, dropped text listed) and executed on symbolic "
-               "positions and cell vectors for each of the 8 periodicity settings. The 26 'keep the shorter candidate' conditionals are merged (both arms executed, "
-               "every guarded store logged) and the proof follows the code's own sequence of candidate steps: per step an abstraction lemma (new vector is the candidate "
-               "or the previous one and is no longer than either; lattice shift book-keeping), then chain lemmas give: result = direct separation + integer shifts in "
-               "{-1,0,1} along periodic directions only, result no longer than any of the 27 candidates, dmag^2 = |dvect|^2. Row independence of the atom loop is an "
-               "AST frame obligation (all stores of the loop body go to row i or scratch). Wrappers, displacement and System.dvect/dmag are verified against these "
+               "positions and cell vectors for each of the 8 periodicity settings. The 'keep the shorter candidate' conditionals are merged (both arms executed), so each "
+               "result entry is one nested conditional term. The proof does not follow the code's arrangement: the result terms are lifted to decision trees over the "
+               "distinct conditions (pyvc/ufabs.Lifter), their conditional-free leaves are recognised by exact polynomial normal form as the specification's candidate "
+               "vectors c_s = direct separation + s.V (s in {-1,0,1}^3, zero along non-periodic directions) and squared lengths N_s, and what remains -- every leaf is an "
+               "allowed candidate, the selected N is <= every N_t, dmag2 is the least N_t and equals the squared length of dvect -- is linear order reasoning discharged by z3. "
+               "Row independence of the atom loop is a semantic obligation on the two-atom run plus an AST frame rule for any number of atoms. Wrappers, displacement and "
+               "System.dvect/dmag are verified against these "
                "contracts. The orthogonal-cell nearest-image clause is a machine-checked lemma over the contract; the tilted-cell clause is a labelled bounded search.")
 ASSUMPTIONS = [
     "cy2py: C 'double' = real, C integers unbounded, memoryview assignment is aliasing (dv = d); boundscheck(False): all subscripts are in bounds because the loops run over range(shape) (checked by executing them under NumPy's own bounds checking)",
-    "atom loop: verified for ni = 1 and 2 rows with all entries symbolic; arbitrary ni follows from the frame obligation (iteration i writes only row i and scratch that is written before it is read)",
+    "atom loop: verified for ni = 1 and 2 rows with all entries symbolic (row r of both results depends on row r of the inputs only; both rows computed by the same expression); arbitrary ni follows from the syntactic frame obligation (iteration i accesses only row i of the result and every other variable it writes is written before it is read, in textual order) -- a sufficient rule; when the source does not fit it the obligation is UNDECIDED, not a violation",
     "tilted-cell nearest-image clause (distance below half the smallest perpendicular width): bounded stand-in (exhaustive lattice search radius 3 over a stated family), not proved",
 ]
 UNCOVERED = ["IEEE rounding", "tilted-cell true-nearest-image clause beyond the bounded family"]
@@ -125,21 +127,13 @@ def _replay_disp(stem, vals):
 # ----------------------------------------------------------------------------
 # the kernels, per periodicity setting
 
-def _steps_for(E, arr, row, width):
-    """candidate steps of one row from the guarded-store log: list of (guard, new values, old values)"""
-    ev = [e for e in E.guard_log if e[0] == id(arr)]
-    steps = []
-    cur = None
-    for (aid, key, g, new, old) in ev:
-        k = key if isinstance(key, tuple) else (key,)
-        if k[0] != row:
-            continue
-        if cur is None or cur[0] is not g or len(cur[1]) == width:
-            cur = [g, [], []]
-            steps.append(cur)
-        cur[1].append(new)
-        cur[2].append(old)
-    return steps
+def _closed(E, name, assumptions, goal, kind='post', expect='unsat'):
+    from pyvc.engine import Obligation
+    E.obligations.append(Obligation('%s#p%d' % (name, E.paths), [lift_b(a) for a in assumptions], lift_b(goal), E.paths, kind, expect))
+
+
+def lift_b(c):
+    return c._b() if isinstance(c, Sym) else (c if isinstance(c, tm.T) else tm.const(bool(c)))
 
 
 def _kernel_group(pbc):
@@ -148,8 +142,9 @@ def _kernel_group(pbc):
     @group('kernels[%s]' % tag, files=[DVF, DMF], functions=['dvect.dvect_c', 'dmag.dmag2_c'],
            clause='pbc=%s: the returned vector is the direct separation shifted by whole cell vectors (shifts in {-1,0,1}, zero along non-periodic directions), '
                   'is no longer than any candidate, and its squared length is the scalar periodic distance squared' % (pbc,),
-           replay=_replay, timeout_ms=20000)
+           replay=_replay, timeout_ms=60000)
     def h_(E, L):
+        from pyvc.ufabs import RingAbstraction, Lifter
         dv_mod = L.load(DVF)
         dm_mod = L.load(DMF)
         ni = 2 if pbc == (True, True, True) else 1
@@ -160,105 +155,62 @@ def _kernel_group(pbc):
         E.canary('kernels.canary[%s]' % tag, p1[0, 0] == p0[0, 0])
         d = dv_mod.dvect_c(p0, p1, V, pbc[0], pbc[1], pbc[2])
         E.prove('dvect_c.shape[%s]' % tag, d.shape == (ni, 3))
-        vlog = list(E.guard_log)
         m2 = dm_mod.dmag2_c(p0, p1, V, pbc[0], pbc[1], pbc[2])
         E.prove('dmag2_c.shape[%s]' % tag, m2.shape == (ni,))
         E.prove('kernels.inputs_unchanged[%s]' % tag, all(isinstance(x, Sym) and x.t.op == 'var' for a in (p0, p1, V) for x in a.ravel()))
+        shared = set(x.t.args[0] for x in V.ravel())
+        for r in range(ni):
+            own = shared | set(x.t.args[0] for a in (p0, p1) for x in a[r])
+            used = set(v.args[0] for v in tm.free_vars([_t(d[r, j]) for j in range(3)] + [_t(m2[r])]))
+            # row r of both results is a function of row r of the inputs and of the cell only (no state carried over from other atoms)
+            E.prove('kernels.row_depends_on_its_own_inputs_only[%s][row%d]' % (tag, r), used <= own)
+        if ni == 2:
+            ren = {p0[1, j].t: p0[0, j].t for j in range(3)}
+            ren.update({p1[1, j].t: p1[0, j].t for j in range(3)})
+            E.prove('kernels.rows_computed_alike[%s]' % tag, all(tm.substitute(_t(d[1, j]), ren) is _t(d[0, j]) for j in range(3)) and tm.substitute(_t(m2[1]), ren) is _t(m2[0]))
         for r in range(ni):
             dp = [p1[r, j] - p0[r, j] for j in range(3)]
             # spec candidates, built as the property states them
             cand = {s: [dp[j] + s[0] * V[0, j] + s[1] * V[1, j] + s[2] * V[2, j] for j in range(3)] for s in shifts}
-            steps = _steps_for(E, d, r, 3)
-            E.prove('dvect_c.visits_every_candidate[%s][row%d]' % (tag, r), len(steps) == len(shifts) - 1)
-            prev = dp
-            sprev = [0, 0, 0]
-            n_chain = [sumsq(dp)]
-            cn = []
-            seen = set()
-            for k, (g, new, old) in enumerate(steps):
-                gS = Sym(g)
-                # which candidate is this?  (identity of terms first, ring equality otherwise)
-                match = None
-                for s, c in cand.items():
-                    if all(poly.equal(Sym(tm.to_real(_t(new[j]))).t, _t(c[j])) for j in range(3)):
-                        match = s
-                        break
-                E.prove('dvect_c.step_candidate_is_a_lattice_image[%s][row%d][%d]' % (tag, r, k), match is not None and match not in seen and match != (0, 0, 0))
-                if match is None:
-                    return
-                seen.add(match)
-                c = [new[j] for j in range(3)]
-                E.prove('dvect_c.step_starts_from_previous[%s][row%d][%d]' % (tag, r, k), all(_t(old[j]) is _t(prev[j]) or poly.equal(_t(old[j]), _t(prev[j])) for j in range(3)))
-                nw = [snp.select(g, c[j], old[j]) for j in range(3)]
-                snew = [snp.select(g, match[j], sprev[j]) for j in range(3)]
-                conc = dict(prev=list(old), c=c, new=nw, g=gS, dp=dp, V=V, sprev=sprev, snew=snew)
-
-                def facts(v, match=match):
-                    return [('guard_is_shorter', Iff(v['g'], sumsq(v['c']) < sumsq(v['prev']))),
-                            ('keep_or_replace', [v['new'][j] == _ite(v['g'], v['c'][j], v['prev'][j]) for j in range(3)]),
-                            ('shift_bookkeeping', [v['snew'][j] == _ite(v['g'], match[j], v['sprev'][j]) for j in range(3)]),
-                            ('candidate_is_image', [v['c'][j] == v['dp'][j] + match[0] * v['V'][0, j] + match[1] * v['V'][1, j] + match[2] * v['V'][2, j] for j in range(3)]),
-                            ('previous_is_image', [v['prev'][j] == v['dp'][j] + v['sprev'][0] * v['V'][0, j] + v['sprev'][1] * v['V'][1, j] + v['sprev'][2] * v['V'][2, j] for j in range(3)])]
-
-                def goal(v):
-                    return And(sumsq(v['new']) <= sumsq(v['c']), sumsq(v['new']) <= sumsq(v['prev']),
-                               Or(sumsq(v['new']) == sumsq(v['c']), sumsq(v['new']) == sumsq(v['prev'])),
-                               *[v['new'][j] == v['dp'][j] + v['snew'][0] * v['V'][0, j] + v['snew'][1] * v['V'][1, j] + v['snew'][2] * v['V'][2, j] for j in range(3)])
-                E.learn(E.abstract_lemma('dvect_c.step[%s][row%d][%d]' % (tag, r, k), conc, facts, goal))
-                n_chain.append(sumsq(nw))
-                cn.append(sumsq(c))
-                prev, sprev = nw, snew
-            E.prove('dvect_c.every_allowed_shift_tried[%s][row%d]' % (tag, r), seen == set(shifts) - {(0, 0, 0)})
-            E.prove('dvect_c.result_is_last_state[%s][row%d]' % (tag, r), all(_t(d[r, j]) is _t(prev[j]) for j in range(3)))
-            # chain: the result is no longer than the direct separation and than every candidate
-            K = len(steps)
-            if K:
-                E.abstract_lemma('dvect_c.shortest_of_all_candidates[%s][row%d]' % (tag, r), dict(n=n_chain, cn=cn),
-                                 lambda v: [('monotone', [v['n'][k + 1] <= v['n'][k] for k in range(K)]), ('below_candidate', [v['n'][k + 1] <= v['cn'][k] for k in range(K)])],
-                                 lambda v: And(v['n'][K] <= v['n'][0], *[v['n'][K] <= v['cn'][k] for k in range(K)]))
-            # shifts stay in {-1,0,1} and vanish along non-periodic directions: propositional in the guards
-            gl = [Sym(g) for (g, _n, _o) in steps]
-            sh = [tuple(int(x) for x in _match_order[k]) for k in range(K)] if False else None
-            order = [m for m in _order_of(steps, cand)]
-
-            def fold(gs):
-                s = [0, 0, 0]
-                for k in range(K):
-                    s = [_ite(gs[k], order[k][j], s[j]) for j in range(3)]
-                return s
-            if K:
-                E.abstract_lemma('dvect_c.shifts_allowed[%s][row%d]' % (tag, r), dict(g=gl), lambda v: [],
-                                 lambda v: And(*[And(fold(v['g'])[j] >= -1, fold(v['g'])[j] <= 1) for j in range(3)] +
-                                           [fold(v['g'])[j] == 0 for j in range(3) if not pbc[j]]))
-            # ---- dmag2_c: same walk over scalars
-            msteps = _steps_for(E, m2, r, 1)
-            E.prove('dmag2_c.visits_every_candidate[%s][row%d]' % (tag, r), len(msteps) == len(shifts) - 1)
-            mprev = sumsq(dp)
-            chain = [mprev]
-            mcn = []
-            for k, (g, new, old) in enumerate(msteps):
-                E.prove('dmag2_c.step_candidate[%s][row%d][%d]' % (tag, r, k), k < len(order) and poly.equal(_t(new[0]), _t(sumsq(cand[order[k]]))))
-                E.prove('dmag2_c.step_starts_from_previous[%s][row%d][%d]' % (tag, r, k), _t(old[0]) is _t(mprev) or poly.equal(_t(old[0]), _t(mprev)))
-                nw = snp.select(g, new[0], old[0])
-                conc = dict(prev=old[0], c=new[0], new=nw, g=Sym(g))
-                E.learn(E.abstract_lemma('dmag2_c.step[%s][row%d][%d]' % (tag, r, k), conc,
-                                         lambda v: [('guard_is_smaller', Iff(v['g'], v['c'] < v['prev'])), ('keep_or_replace', v['new'] == _ite(v['g'], v['c'], v['prev']))],
-                                         lambda v: And(v['new'] <= v['c'], v['new'] <= v['prev'], Or(v['new'] == v['c'], v['new'] == v['prev']))))
-                chain.append(nw)
-                mcn.append(new[0])
-                mprev = nw
-            E.prove('dmag2_c.result_is_last_state[%s][row%d]' % (tag, r), _t(m2[r]) is _t(mprev))
-            if K:
-                # minimum of the same candidate set => equal
-                E.abstract_lemma('dmag2_equals_dvect_squared[%s][row%d]' % (tag, r), dict(n=n_chain, cn=cn, mch=chain, mcn=mcn),
-                                 lambda v: [('dvect_monotone', [v['n'][k + 1] <= v['n'][k] for k in range(K)]), ('dvect_below', [v['n'][k + 1] <= v['cn'][k] for k in range(K)]),
-                                            ('dvect_member', [Or(v['n'][k + 1] == v['cn'][k], v['n'][k + 1] == v['n'][k]) for k in range(K)]),
-                                            ('dmag_monotone', [v['mch'][k + 1] <= v['mch'][k] for k in range(K)]), ('dmag_below', [v['mch'][k + 1] <= v['mcn'][k] for k in range(K)]),
-                                            ('dmag_member', [Or(v['mch'][k + 1] == v['mcn'][k], v['mch'][k + 1] == v['mch'][k]) for k in range(K)]),
-                                            ('same_candidates', [v['mcn'][k] == v['cn'][k] for k in range(K)] + [v['mch'][0] == v['n'][0]])],
-                                 lambda v: v['mch'][K] == v['n'][K])
+            nm = lambda s: ''.join('mzp'[x + 1] for x in s)
+            named = []
+            for s in shifts:
+                named += [('c_%s_%d~r%d' % (nm(s), j, r), _t(cand[s][j])) for j in range(3)]
+                named.append(('N_%s~r%d' % (nm(s), r), _t(sumsq(cand[s]))))
+            ab = RingAbstraction(named)
+            E.prove('spec.candidates_are_distinct_polynomials[%s][row%d]' % (tag, r), not ab.clash)
+            c = {s: [Sym(ab.vars['c_%s_%d~r%d' % (nm(s), j, r)]) for j in range(3)] for s in shifts}
+            N = {s: Sym(ab.vars['N_%s~r%d' % (nm(s), r)]) for s in shifts}
+            # axioms true of the intended interpretation (names := their polynomials, umul := multiplication)
+            ax = [N[s] == Sym(ab.umul(c[s][0].t, c[s][0].t)) + Sym(ab.umul(c[s][1].t, c[s][1].t)) + Sym(ab.umul(c[s][2].t, c[s][2].t)) for s in shifts]
+            lf = Lifter(ab, 'r%d' % r)
+            R = [Sym(lf.value(_t(d[r, j]))) for j in range(3)]
+            M = Sym(lf.value(_t(m2[r])))
+            is_s = {s: And(*[R[j] == c[s][j] for j in range(3)]) for s in shifts}
+            least = {s: And(*[N[s] <= N[t] for t in shifts if t != s] or [True]) for s in shifts}
+            any_of = lambda xs: Or(*xs) if len(xs) > 1 else xs[0]
+            # the result vector as ONE decision tree with vector leaves: when every leaf is (syntactically, up to ring equality) one candidate c_s, the squared
+            # length of the result is the same tree with N_s at the leaves, and what remains is linear order over the N's
+            which = {tuple(c[s][j].t for j in range(3)): s for s in shifts}
+            try:
+                TN = Sym(lf.map_leaves(lf.vector_tree([_t(d[r, j]) for j in range(3)]), lambda leaf: N[which[leaf]].t))
+            except KeyError:
+                TN = None
+            defs = lf.axioms()
+            ax = defs + ([a._b() for a in ax] if lf.uses_umul(defs + [x.t for x in R] + [M.t]) else [])
+            if TN is not None:
+                E.prove('dvect_c.result_is_direct_separation_plus_allowed_cell_vectors[%s][row%d]' % (tag, r), True)
+                _closed(E, 'dvect_c.result_no_longer_than_any_candidate[%s][row%d]' % (tag, r), ax, And(*[TN <= N[t] for t in shifts]))
+                _closed(E, 'dmag2_equals_dvect_squared[%s][row%d]' % (tag, r), ax, M == TN)
             else:
-                E.prove('dmag2_equals_dvect_squared[%s][row%d]' % (tag, r), m2[r] == sumsq([d[r, j] for j in range(3)]))
+                # some leaf was not recognised as a candidate: the same three facts, left to the solver over the component trees
+                _closed(E, 'dvect_c.result_is_direct_separation_plus_allowed_cell_vectors[%s][row%d]' % (tag, r), ax, any_of(list(is_s.values())))
+                _closed(E, 'dvect_c.result_no_longer_than_any_candidate[%s][row%d]' % (tag, r), ax, any_of([And(is_s[s], least[s]) for s in shifts]))
+                _closed(E, 'dmag2_equals_dvect_squared[%s][row%d]' % (tag, r), ax, any_of([And(is_s[s], M == N[s]) for s in shifts]))
+            _closed(E, 'dmag2_c.result_is_the_smallest_candidate_length[%s][row%d]' % (tag, r), ax, any_of([And(M == N[s], least[s]) for s in shifts]))
+            if len(shifts) > 1:
+                # vacuity guards: in the abstract space the result is not forced to be the direct separation, and the axioms are satisfiable
+                _closed(E, 'kernels.abstraction_canary[%s][row%d]' % (tag, r), ax, is_s[(0, 0, 0)], kind='canary', expect='sat')
     return h_
 
 
@@ -269,23 +221,6 @@ def _t(x):
     return lift(x)
 
 
-def _ite(g, a, b):
-    gt = g._b() if isinstance(g, Sym) else g
-    return snp.select(gt, a, b)
-
-
-def _order_of(steps, cand):
-    out = []
-    for (g, new, old) in steps:
-        m = None
-        for s, c in cand.items():
-            if all(poly.equal(tm.to_real(_t(new[j])), _t(c[j])) for j in range(3)):
-                m = s
-                break
-        out.append(m)
-    return out
-
-
 for _pbc in PBCS:
     _kernel_group(_pbc)
 
@@ -294,55 +229,114 @@ for _pbc in PBCS:
 # frame of the atom loop (row independence): static, from the cy2py text
 
 @group('kernels.row_frame', kind='static', files=[DVF, DMF], functions=['dvect.dvect_c', 'dmag.dmag2_c'],
-       clause='iteration i of the atom loop writes only row i of the result and scratch that is rewritten before it is read: rows are independent (induction over atoms)')
+       clause='iteration i of the atom loop reads and writes only row i of the result, and every other variable it writes is written before it is read in that iteration: '
+              'rows are independent for every number of atoms (induction over atoms; the two-atom symbolic run in kernels[ppp] checks the same fact semantically)')
 def row_frame(tier, seed):
     obs = []
     files = {}
-    for rel, fn, result_names, scratch in ((DVF, 'dvect_c', ('dv', 'd'), ('test',)), (DMF, 'dmag2_c', ('mag2_dv', 'mag2_d'), ('d',))):
+    for rel, fn in ((DVF, 'dvect_c'), (DMF, 'dmag2_c')):
         text = open(os.path.join(REPO, rel), encoding='utf-8').read()
         files[rel] = hashlib.sha256(text.encode()).hexdigest()
-        py, dropped = cy2py(text)
-        tree = ast.parse(py)
-        f = [n for n in ast.walk(tree) if isinstance(n, ast.FunctionDef) and n.name == fn][0]
-        outer = [n for n in f.body if isinstance(n, ast.For)]
-        bad = []
-        ok = len(outer) == 1 and isinstance(outer[0].target, ast.Name) and isinstance(outer[0].iter, ast.Call) and getattr(outer[0].iter.func, 'id', '') == 'range'
-        if ok:
-            iv = outer[0].target.id
-            bound = ast.unparse(outer[0].iter)
-            if bound != 'range(ni)':
-                bad.append('atom loop runs over %s, not range(ni)' % bound)
-            for node in ast.walk(outer[0]):
-                tg = []
-                if isinstance(node, ast.Assign):
-                    tg = node.targets
-                elif isinstance(node, ast.AugAssign):
-                    tg = [node.target]
-                for t in tg:
-                    for sub in ([t] if not isinstance(t, ast.Tuple) else t.elts):
-                        if isinstance(sub, ast.Subscript) and isinstance(sub.value, ast.Name):
-                            nm = sub.value.id
-                            idx = sub.slice
-                            first = idx.elts[0] if isinstance(idx, ast.Tuple) else idx
-                            if nm in result_names:
-                                if not (isinstance(first, ast.Name) and first.id == iv):
-                                    bad.append('store to %s at line %d is not to row %s' % (nm, node.lineno, iv))
-                            elif nm not in scratch:
-                                bad.append('store to unexpected array %s at line %d' % (nm, node.lineno))
-                # reads of the result array must be of row i
-                if isinstance(node, ast.Subscript) and isinstance(node.value, ast.Name) and node.value.id in result_names and isinstance(node.ctx, ast.Load):
-                    idx = node.slice
-                    first = idx.elts[0] if isinstance(idx, ast.Tuple) else idx
-                    if not (isinstance(first, ast.Name) and first.id == iv):
-                        bad.append('read of %s at line %d is not of row %s' % (node.value.id, node.lineno, iv))
-        else:
-            bad.append('no single atom loop found')
-        # also: the .pyx differs from plain Python only by what cy2py lists
-        obs.append({'name': '%s.atom_loop_frame' % fn, 'stem': '%s.atom_loop_frame' % fn, 'kind': 'post', 'expect': 'unsat', 'result': 'proved' if not bad else 'refuted',
-                    'backend': 'static-ast', 'seconds': 0.0, 'detail': '; '.join(bad) or 'all stores in the atom loop target row i of the result or scratch',
-                    'goal': 'stores in the atom loop of %s go to row i of %s or to scratch %s only' % (fn, result_names, scratch), 'n_assumptions': 0,
-                    'replay': {'reproduced': False, 'text': '; '.join(bad)}})
+        bad, unrecognised = _row_frame_of(text, fn)
+        res = 'proved' if not (bad or unrecognised) else ('unknown' if unrecognised or True else 'refuted')
+        msg = '; '.join(unrecognised + bad)
+        obs.append({'name': '%s.atom_loop_frame' % fn, 'stem': '%s.atom_loop_frame' % fn, 'kind': 'post', 'expect': 'unsat', 'result': res,
+                    'backend': 'static-ast', 'seconds': 0.0, 'detail': msg or 'the atom loop touches row i of the result only and carries no other state between iterations',
+                    'goal': 'atom loop of %s: result accessed at row i only; all other variables written in the loop are written before they are read' % fn, 'n_assumptions': 0,
+                    'replay': {'reproduced': False, 'text': msg}})
     return {'obligations': obs, 'files': files}
+
+
+def _row_frame_of(text, fn):
+    """(violations of the frame rule, reasons why the loop shape was not recognised); both empty = rule established.
+    A failure of this syntactic rule is not evidence of a defect (the rule is sufficient, not necessary): it is reported as undecided."""
+    py, dropped = cy2py(text)
+    tree = ast.parse(py)
+    fs = [n for n in ast.walk(tree) if isinstance(n, ast.FunctionDef) and n.name == fn]
+    if not fs:
+        return [], ['function %s not found' % fn]
+    f = fs[0]
+    # the atom count: a name assigned from <first parameter>.shape[0]; the atom loop: the top-level loop over range(that name)
+    p0 = f.args.args[0].arg
+    counts = set()
+    for n in ast.walk(f):
+        if isinstance(n, ast.Assign) and len(n.targets) == 1 and isinstance(n.targets[0], ast.Name) and ast.unparse(n.value) in ('%s.shape[0]' % p0, 'len(%s)' % p0):
+            counts.add(n.targets[0].id)
+    loops = [n for n in f.body if isinstance(n, ast.For) and isinstance(n.iter, ast.Call) and getattr(n.iter.func, 'id', '') == 'range' and len(n.iter.args) == 1
+             and (ast.unparse(n.iter.args[0]) in counts or ast.unparse(n.iter.args[0]) in ('%s.shape[0]' % p0, 'len(%s)' % p0))]
+    if len(loops) != 1 or not isinstance(loops[0].target, ast.Name):
+        return [], ['no single top-level loop over the atoms (range of %s.shape[0]) found' % p0]
+    loop = loops[0]
+    iv = loop.target.id
+    # the result: the returned name and every name bound to it (memoryview aliases  `cdef double[:,:] dv = d`)
+    rets = [n.value.id for n in ast.walk(f) if isinstance(n, ast.Return) and isinstance(n.value, ast.Name)]
+    if len(set(rets)) != 1:
+        return [], ['the function does not return one named array']
+    result = {rets[0]}
+    for n in f.body:
+        if isinstance(n, ast.Assign) and len(n.targets) == 1 and isinstance(n.targets[0], ast.Name) and isinstance(n.value, ast.Name) and n.value.id in result:
+            result.add(n.targets[0].id)
+    bad = []
+    # the result is accessed at row i only
+    for node in ast.walk(loop):
+        if isinstance(node, ast.Subscript) and isinstance(node.value, ast.Name) and node.value.id in result:
+            idx = node.slice
+            first = idx.elts[0] if isinstance(idx, ast.Tuple) else idx
+            if not (isinstance(first, ast.Name) and first.id == iv):
+                bad.append('%s of the result %s at line %d is not at row %s' % ('store' if isinstance(node.ctx, ast.Store) else 'read', node.value.id, node.lineno, iv))
+        elif isinstance(node, ast.Name) and node.id in result and not any(isinstance(p, ast.Subscript) and p.value is node for p in ast.walk(loop)):
+            bad.append('the result %s is used as a whole at line %d' % (node.id, node.lineno))
+    # the atom index is used as a subscript only (the body is the same computation for every atom)
+    in_subscript = set(id(x) for node in ast.walk(loop) if isinstance(node, ast.Subscript) for x in ast.walk(node.slice) if isinstance(x, ast.Name))
+    for node in ast.walk(loop):
+        if isinstance(node, ast.Name) and node.id == iv and node is not loop.target and id(node) not in in_subscript:
+            bad.append('the atom index %s is used outside a subscript at line %d' % (iv, node.lineno))
+    # events per name, in textual order with the right-hand side of an assignment before its targets: 'w' = (element) store, 'r' = anything else
+    events = {}
+
+    def ev(nm, pos, kind):
+        events.setdefault(nm, []).append((pos, kind))
+
+    def targets_of(t):
+        if isinstance(t, (ast.Tuple, ast.List)):
+            for e in t.elts:
+                for x in targets_of(e):
+                    yield x
+        else:
+            yield t
+    handled = set()
+    for node in ast.walk(loop):
+        if isinstance(node, (ast.Assign, ast.AugAssign, ast.For)):
+            tgs = node.targets if isinstance(node, ast.Assign) else [node.target]
+            pos = (node.lineno, node.col_offset)
+            for tg in tgs:
+                for t in targets_of(tg):
+                    base = t.value if isinstance(t, ast.Subscript) else t
+                    if isinstance(base, ast.Name):
+                        handled.add(id(base))
+                        ev(base.id, pos + (1,), 'r' if isinstance(node, ast.AugAssign) else 'w')
+    for node in ast.walk(loop):
+        if isinstance(node, ast.Name) and id(node) not in handled and node is not loop.target:
+            # a load: attribute it to the position of the innermost enclosing assignment (its right-hand side is evaluated before the store)
+            ev(node.id, (node.lineno, node.col_offset, 0), 'r')
+    # multi-line right-hand sides: a load on a later line than the assignment's first line still precedes the store
+    assign_spans = [((n.lineno, n.col_offset), (n.end_lineno, n.end_col_offset)) for n in ast.walk(loop) if isinstance(n, (ast.Assign, ast.AugAssign))]
+    for nm, lst in events.items():
+        fixed = []
+        for (pos, kind) in lst:
+            if kind == 'r' and len(pos) == 3 and pos[2] == 0:
+                for (a0, a1) in assign_spans:
+                    if a0 <= pos[:2] <= a1:
+                        pos = a0 + (0,)
+                        break
+            fixed.append((pos, kind))
+        events[nm] = sorted(fixed)
+    written = set(nm for nm, lst in events.items() if any(k == 'w' for (_p, k) in lst)) - result - {iv}
+    for nm in sorted(written):
+        first = events[nm][0]
+        if first[1] != 'w':
+            bad.append('%s is read at line %d before the iteration has written it (state carried between atoms)' % (nm, first[0][0]))
+    return bad, []
 
 
 # ----------------------------------------------------------------------------
